@@ -437,21 +437,23 @@ def sameDenoms (os : List Order) (f : Order → Coin) : Bool :=
   | [] => true
   | o :: rest => rest.all fun x => (f x).1 = (f o).1
 
+/-- `splitPartial`: asks first, then bids (at most one partial order over both sides). -/
+def splitPartial (asks bids : List Order) (ra rb : List (Int × Int)) : Except Err Plan :=
+  match splitSide asks ra { full := [], part := none } with
+  | .error e => .error e
+  | .ok p1 => splitSide bids rb p1
+
 /-- `validateCanSettle` (denoms) + `allocateAssets` + `splitPartial`. -/
 def planSettlement (asks bids : List Order) : Except Err Plan :=
-  match asks, bids with
-  | [], _ => .error .invalid
-  | _, [] => .error .invalid
-  | a :: _, b :: _ =>
+  match asks.head?, bids.head? with
+  | some a, some b =>
     if !(sameDenoms asks (·.assets) && sameDenoms asks (·.price) && sameDenoms bids (·.assets) &&
          sameDenoms bids (·.price)) then .error .denoms
     else if a.assets.1 ≠ b.assets.1 ∨ a.price.1 ≠ b.price.1 then .error .denoms
     else match allocLoop (asks.map fun o => (0, o.assets.2)) (bids.map fun o => (0, o.assets.2)) [] [] with
       | none => .error .alloc
-      | some (ra, rb) =>
-        match splitSide asks ra { full := [], part := none } with
-        | .error e => .error e
-        | .ok p1 => splitSide bids rb p1
+      | some (ra, rb) => splitPartial asks bids ra rb
+  | _, _ => .error .invalid
 
 /-! ### closeSettlement -/
 
@@ -524,36 +526,48 @@ def getOrders (s : State) (m : Nat) (ids : List Nat) (wantAsk : Bool) (notOwner 
 /-- `ValidateOrderIDs` -/
 def validIds (ids : List Nat) : Bool := !ids.isEmpty && !ids.contains 0 && ids.Nodup
 
-/-- `MsgMarketSettleRequest.ValidateBasic` + `MarketSettle` + `SettleOrders`. -/
-def settleOrders (s : State) (admin : Addr) (m : Nat) (askIds bidIds : List Nat) (expectPartial : Bool)
-    (orc : Oracle) : Except Err State :=
-  if !(validIds askIds && validIds bidIds && (askIds ++ bidIds).Nodup) then .error .invalid
+/-- `MsgMarketSettleRequest.ValidateBasic`, the `MarketSettle` guard, the order lookups of
+`SettleOrders` and the asset half of `BuildSettlement`. -/
+def settlePlan (s : State) (admin : Addr) (m : Nat) (askIds bidIds : List Nat) : Except Err Plan :=
+  if !(askIds ++ bidIds).Nodup then .error .invalid
+  else if !(validIds askIds && validIds bidIds) then .error .invalid
   else if !isAdmin admin then .error .perm
   else match getMarket s m with
     | none => .error .market
     | some _ =>
-      match getOrders s m askIds true "", getOrders s m bidIds false "" with
-      | .error e, _ => .error e
-      | _, .error e => .error e
-      | .ok asks, .ok bids =>
-        match planSettlement asks bids with
+      match getOrders s m askIds true "" with
+      | .error e => .error e
+      | .ok asks =>
+        match getOrders s m bidIds false "" with
         | .error e => .error e
-        | .ok plan =>
-          -- the price/fee half of `BuildSettlement` is observed, not modelled
-          if orc.res = "err:price" then .error (.oracle "err:price")
-          else if expectPartial ≠ plan.part.isSome then .error .partialx
-          else if orc.res = "err:funds" then .error (.oracle "err:funds")
-          else closeSettlement s plan orc.moves
+        | .ok bids => planSettlement asks bids
+
+/-- `MarketSettle` / `SettleOrders`. -/
+def settleOrders (s : State) (admin : Addr) (m : Nat) (askIds bidIds : List Nat) (expectPartial : Bool)
+    (orc : Oracle) : Except Err State :=
+  match settlePlan s admin m askIds bidIds with
+  | .error e => .error e
+  | .ok plan =>
+    -- the price/fee half of `BuildSettlement` is observed, not modelled
+    if orc.res = "err:price" then .error (.oracle "err:price")
+    else if expectPartial ≠ plan.part.isSome then .error .partialx
+    else if orc.res = "err:funds" then .error (.oracle "err:funds")
+    else closeSettlement s plan orc.moves
 
 def sumAssets (os : List Order) : Coins := norm (os.map (·.assets))
 def sumPrice (os : List Order) : Coins := norm (os.map (·.price))
 
-/-- `FillBids`: the seller fills bid orders in full. -/
-def fillBids (s : State) (seller : Addr) (m : Nat) (bidIds : List Nat) (totalAssets : Coins)
-    (flat : Option Coin) (creationFee : Option Coin) (orc : Oracle) : Except Err State :=
-  if !(validIds bidIds && isValidCoins totalAssets && !totalAssets.isEmpty &&
-       (match flat with | some f => validCoin f | none => true) &&
-       (match creationFee with | some f => validCoin f | none => true)) then .error .invalid
+/-- an optional coin that must be positive when given -/
+def optValid (c : Option Coin) : Bool :=
+  match c with
+  | some f => validCoin f
+  | none => true
+
+/-- everything `FillBids` checks before the settlement is closed; the bid orders to fill. -/
+def fillBidsOrders (s : State) (seller : Addr) (m : Nat) (bidIds : List Nat) (totalAssets : Coins)
+    (flat : Option Coin) (creationFee : Option Coin) : Except Err (List Order) :=
+  if !validIds bidIds then .error .invalid
+  else if !(isValidCoins totalAssets && !totalAssets.isEmpty && optValid flat && optValid creationFee) then .error .invalid
   else match marketAcceptingOrders s m with
     | none => .error .market
     | some mk =>
@@ -561,16 +575,22 @@ def fillBids (s : State) (seller : Addr) (m : Nat) (bidIds : List Nat) (totalAss
       else if !(validateFlatFee mk.createAskFlat creationFee && validateFlatFee mk.sellerFlat flat) then .error .fee
       else match getOrders s m bidIds false seller with
         | .error e => .error e
-        | .ok bids =>
-          if Coins.canon (sumAssets bids) ≠ Coins.canon totalAssets then .error .mismatch
-          else if orc.res = "err:price" ∨ orc.res = "err:funds" then .error (.oracle orc.res)
-          else closeSettlement s { full := bids, part := none } orc.moves
+        | .ok bids => if Coins.canon (sumAssets bids) ≠ Coins.canon totalAssets then .error .mismatch else .ok bids
 
-/-- `FillAsks`: the buyer fills ask orders in full. -/
-def fillAsks (s : State) (buyer : Addr) (m : Nat) (askIds : List Nat) (totalPrice : Coin)
-    (fees : Coins) (creationFee : Option Coin) (orc : Oracle) : Except Err State :=
-  if !(validIds askIds && validCoin totalPrice && isValidCoins fees &&
-       (match creationFee with | some f => validCoin f | none => true)) then .error .invalid
+/-- `FillBids`: the seller fills bid orders in full. -/
+def fillBids (s : State) (seller : Addr) (m : Nat) (bidIds : List Nat) (totalAssets : Coins)
+    (flat : Option Coin) (creationFee : Option Coin) (orc : Oracle) : Except Err State :=
+  match fillBidsOrders s seller m bidIds totalAssets flat creationFee with
+  | .error e => .error e
+  | .ok bids =>
+    if orc.res = "err:price" ∨ orc.res = "err:funds" then .error (.oracle orc.res)
+    else closeSettlement s { full := bids, part := none } orc.moves
+
+/-- everything `FillAsks` checks before the settlement is closed; the ask orders to fill. -/
+def fillAsksOrders (s : State) (buyer : Addr) (m : Nat) (askIds : List Nat) (totalPrice : Coin)
+    (fees : Coins) (creationFee : Option Coin) : Except Err (List Order) :=
+  if !validIds askIds then .error .invalid
+  else if !(validCoin totalPrice && isValidCoins fees && optValid creationFee) then .error .invalid
   else match marketAcceptingOrders s m with
     | none => .error .market
     | some mk =>
@@ -578,10 +598,16 @@ def fillAsks (s : State) (buyer : Addr) (m : Nat) (askIds : List Nat) (totalPric
       else if !(validateFlatFee mk.createBidFlat creationFee && validateBuyerSettlementFee mk fees) then .error .fee
       else match getOrders s m askIds true buyer with
         | .error e => .error e
-        | .ok asks =>
-          if Coins.canon (sumPrice asks) ≠ Coins.canon [totalPrice] then .error .mismatch
-          else if orc.res = "err:price" ∨ orc.res = "err:funds" then .error (.oracle orc.res)
-          else closeSettlement s { full := asks, part := none } orc.moves
+        | .ok asks => if Coins.canon (sumPrice asks) ≠ Coins.canon [totalPrice] then .error .mismatch else .ok asks
+
+/-- `FillAsks`: the buyer fills ask orders in full. -/
+def fillAsks (s : State) (buyer : Addr) (m : Nat) (askIds : List Nat) (totalPrice : Coin)
+    (fees : Coins) (creationFee : Option Coin) (orc : Oracle) : Except Err State :=
+  match fillAsksOrders s buyer m askIds totalPrice fees creationFee with
+  | .error e => .error e
+  | .ok asks =>
+    if orc.res = "err:price" ∨ orc.res = "err:funds" then .error (.oracle orc.res)
+    else closeSettlement s { full := asks, part := none } orc.moves
 
 /-! ### Commitments -/
 
